@@ -2477,6 +2477,20 @@ fn c20_gen(seed: u64, run: u64, thorough: bool) -> Plan {
             }
         }
     }
+    // one run in eight: a few packets larger than the peer's advertised allocation (rounded up
+    // to a whole fragment) among the others - a peer may advertise less than the application
+    // sends; such a packet is discarded at once and never counts (generator of its own)
+    if run % 8 == 3 {
+        let mut r2 = Rng::keyed(&[seed, run, 0xc20_0b16]);
+        let limits: Vec<u64> = plan.endpoints.iter().map(|e| match &e.kind { EndpointKind::Hc { spec, .. } => (spec.tx_alloc_limit + FRAG - 1) / FRAG * FRAG, _ => u64::MAX }).collect();
+        for t in plan.timeline.iter_mut() {
+            if let Op::Send { ep, len, .. } = &mut t.op {
+                if limits[*ep] < 200_000 && r2.chance(0.03) {
+                    *len = (limits[*ep] + 1 + r2.below(3000)) as u32;
+                }
+            }
+        }
+    }
     plan
 }
 fn c20_gen_b(seed: u64, run: u64, thorough: bool) -> Plan {
